@@ -272,7 +272,7 @@ def discharge(ob: Obligation, pc, formula, symbols, timeout_ms, use_cvc5=True, w
             ob.smt2 = s.to_smt2()[:6000]
         except Exception:
             ob.smt2 = None
-    r = s.check()
+    r = sym.hard_check(s, timeout_ms=timeout_ms)
     ob.backend = "z3-" + z3.get_version_string()
     if r == z3.unsat:
         ob.status = "proved"
@@ -343,7 +343,7 @@ class ContractResult:
     undecided_branches: int = 0
 
 
-def verify_contract(cdef: ContractDef, timeout_ms=10000, want_smt2=1) -> ContractResult:
+def verify_contract(cdef: ContractDef, timeout_ms=10000, want_smt2=1, stop_on_refuted=False) -> ContractResult:
     t0 = time.time()
     res = ContractResult(cdef.prop, cdef.name)
     try:
@@ -355,7 +355,7 @@ def verify_contract(cdef: ContractDef, timeout_ms=10000, want_smt2=1) -> Contrac
         res.wall_s = round(time.time() - t0, 3)
         return res
     sym.reset_mod_caches()
-    ex = Explorer()
+    ex = Explorer(budget_s=(60 if stop_on_refuted else (None if timeout_ms <= 10000 else 900)))
     interp_box = {}
     smt_budget = [want_smt2]
 
@@ -410,6 +410,13 @@ def verify_contract(cdef: ContractDef, timeout_ms=10000, want_smt2=1) -> Contrac
             counts[label] = n + 1
             lab = label if n == 0 else f"{label}#{n}"
             ob = Obligation(cdef.prop, cdef.name, lab, idx, kind)
+            if stop_on_refuted and any(o.kind != "canary" and o.status == "refuted" for o in res.obligations):
+                break
+            if time.time() > ex.deadline + (30 if stop_on_refuted else 120):
+                ob.status = "unknown"
+                ob.note = "per-contract time budget exhausted before discharge"
+                res.obligations.append(ob)
+                continue
             want = smt_budget[0] > 0
             discharge(ob, pc, formula, case.symbols, timeout_ms, want_smt2=want)
             if want and ob.smt2:
@@ -425,9 +432,9 @@ def verify_contract(cdef: ContractDef, timeout_ms=10000, want_smt2=1) -> Contrac
     return res
 
 
-def verify_contract_safe(cdef, timeout_ms=10000):
+def verify_contract_safe(cdef, timeout_ms=10000, stop_on_refuted=False):
     try:
-        return verify_contract(cdef, timeout_ms)
+        return verify_contract(cdef, timeout_ms, stop_on_refuted=stop_on_refuted)
     except Exception as e:  # checker crash is never a violation
         r = ContractResult(cdef.prop, cdef.name, status="error", reason=f"{type(e).__name__}: {e}\n{traceback.format_exc()[-1500:]}")
         return r
